@@ -33,6 +33,7 @@ fn variants(file: usize) -> Vec<&'static str> {
             "use \"a.oal\" as a;\nlet m = { 'x a.nope };\nres / on get -> m;\n",
             "use \"a.oal\" as a;\nlet m = { 'x a.v ;\nres / on get -> m;\n",
             "use \"a.oal\" as a;\nuse \"c.oal\" as c;\nlet m = { 'x a.v, 'z c.u };\nres / on get -> m `description: \"é€😉\"`;\n",
+            "let m = { 'x nope };\nres / on get -> m;\n",
         ],
         1 => vec![
             "let v = { 'name str, 'n int };\n",
@@ -84,7 +85,34 @@ struct Client {
     versions: Vec<i64>,
 }
 
+/// Import-free variants of the main module (indices into `variants(0)`): with one of them on disk the server holds a
+/// single document.
+const SOLO_MAIN: [usize; 3] = [3, 4, 9];
+
 fn gen_history(rng: &mut Rng, max_steps: usize) -> (Vec<usize>, Vec<Step>) {
+    if rng.chance(1, 8) {
+        // a single-module program: the only document the server holds is opened with unsaved text and closed again,
+        // several times, with and without requests in between
+        let disk = vec![3, 0, 0, 0];
+        let mut steps = Vec::new();
+        for _ in 0..rng.range(1, 3) {
+            let t = variants(0)[*rng.pick(&SOLO_MAIN)];
+            steps.push(Step::Open(0, t.to_owned()));
+            if rng.chance(1, 2) {
+                steps.push(Step::Request(0, "textDocument/definition", rng.below(40)));
+            }
+            if rng.chance(1, 2) {
+                let t2 = variants(0)[*rng.pick(&SOLO_MAIN)];
+                steps.push(Step::Change(0, vec![(None, t2.to_owned())]));
+            }
+            steps.push(Step::Close(0));
+            if rng.chance(2, 3) {
+                steps.push(Step::Checkpoint);
+            }
+        }
+        steps.push(Step::Checkpoint);
+        return (disk, steps);
+    }
     // disk variant per file
     let disk: Vec<usize> = (0..4).map(|f| if rng.chance(3, 4) { 0 } else { rng.below(variants(f).len()) }).collect();
     let mut open: Vec<Option<ClientDoc>> = vec![None; 4];
